@@ -2,7 +2,8 @@ PROP = dict(
     module="M3d.Props.C08",
     corr=dict(quick=1000, thorough=4000),
     thorough_seeds=6,
-    gen=[],
+    gen=["Kernels"],
+    tie_modules=["M3d.Lemmas.KernelsTieBox"],
     corr_theorems=(
         "hierarchical queries (kinds j3/j2/o3): M3d.C08.joined_ray_eq_concat, joined_first_eq_min, joined_sphere_iff, "
         "multi_segment_eq, multi_rect_eq, multi_triangle_eq, joined2_*, bvh_object_cast_eq_min together with grouped_collider_wf / "
@@ -21,6 +22,10 @@ PROP = dict(
         "(implementation, Lean model, harness linear scan). distinct = distinct operation lines"
     ),
     trusted=[
+        "regenerated, not hand-written: lean/M3d/Gen/Kernels.lean (Go->Lean translator harness/hlib/go2lean, run on the current "
+        "source on every check); M3d.KernelsTie.Box.* re-prove against it that pointToBoundsDistSquared and "
+        "sphereTouchesBounds/circleTouchesBounds (the pruning bounds of every hierarchy query; axis loop unrolled by the translator) "
+        "and Coord Min/Max/SquaredDist are the model functions ptBoxDistSq3/2, sphereTouches3/2, V.min/max/sqDist of the soundness theorems",
         "modelled, not verified: pointers as ids; sort.Slice as an arbitrary permutation per axis; areaDensityBVHSplit as an arbitrary in-range split oracle; "
         "splitBounders' index arithmetic as a stable partition (equal under the proved invariant, theorem split_positions)",
         "leaf behaviour (Triangle/Segment ray, sphere, segment, rect, triangle tests; Closest/Dist) is a parameter of the theorems: the only hypothesis is "
